@@ -50,6 +50,8 @@ def run_mc(rep, module, cases=None, env=None, workers=16, cfg=None, heap="16g", 
 
 def repro_snippet(rec):
     mode = rec["mode"]
+    if rec.get("kind") == "readers":
+        return f"# {rec['defs']}  (add_field(name, type, offset=...) in the order given), both compiled=True and compiled=False; input bytes({rec.get('input', [])!r}) at {rec.get('start', 0)}"
     return "\n".join([
         "import io",
         "from dissect.cstruct import cstruct",
@@ -123,6 +125,11 @@ def adjudicate(rep, records, owned, *, trace_module="Trace_Codec", nontrivial=No
             rep.violation(f"clauses {failed} rejected (all: {v}) :: {r['defs'][:300]} mode={r['mode']} start={r.get('start')} "
                           f"compiled={r.get('req_compiled')} input={bytes(r.get('input', [])).hex()[:120]}",
                           {"kind": "trace", "clauses": failed, "all_clauses": v, "record": r, "python": repro_snippet(r)})
+    planned = sum(1 for r in ok if "plan" in r.get("obs", {}))
+    drift = rep.exclusions.get("DRIFT:plan", 0)
+    if planned and drift > planned // 4:
+        rep.notes.append(f"the generated source of {drift} of {planned} compiled structures does not have the shape PlanSpec predicts: the "
+                         "translation check (source text -> plan) is not binding for them (behaviour is still compared with Decode)")
 
 
 def finding_f16(r, verdict, failed):
